@@ -18,26 +18,27 @@ Fixpoint use_dict_chain (p : prog) (chain : list scp) (d : udict) : option udict
 Definition remote_names (info : uinfo) : list str :=
   map (fun o => match sassoc o (i_ren info) with Some r => r | None => o end) (i_only info).
 
-(* {value: key for key, value in rename_map.items()}.get(name): the last local name mapped to the remote name *)
-Fixpoint rev_lookup (name : str) (ren : list (str * str)) (acc : option str) : option str :=
-  match ren with [] => acc | (l, r) :: rest => rev_lookup name rest (if str_eqb r name then Some l else acc) end.
-
 (* child_candidates(module, only_list) with filter_public = True *)
 Definition module_candidates (msc : scp) (info : uinfo) : list ent :=
   let pub := filter (fun e => negb (is_private msc e)) (sp_children msc) in
   match i_only info with [] => pub | _ => filter (fun e => smem (e_name e) (remote_names info)) pub end.
 
-Definition label_of (info : uinfo) (e : ent) : str :=
+(* the local names under which entity e of the module is known here: its own name if the ONLY list has it, and every rename *)
+Definition labels_of (info : uinfo) (e : ent) : list str :=
   match i_ren info with
-  | [] => e_name e
-  | _ => match rev_lookup (e_name e) (i_ren info) None with Some l => l | None => e_name e end
+  | [] => [e_name e]
+  | _ =>
+    match i_only info with
+    | [] => match map fst (filter (fun lr => str_eqb (snd lr) (e_name e)) (i_ren info)) with [] => [e_name e] | l => l end
+    | only => filter (fun o => str_eqb (match sassoc o (i_ren info) with Some r => r | None => o end) (e_name e)) only
+    end
   end.
 
 (* (module, entity, label) for every candidate that comes from the USE dictionary *)
 Definition use_candidates (p : prog) (d : udict) : list (str * ent * str) :=
   flat_map (fun mi => match sassoc (fst mi) (p_tree p) with
                       | Some i => match scope_at p i with
-                                  | Some msc => map (fun e => (fst mi, e, label_of (snd mi) e)) (module_candidates msc (snd mi))
+                                  | Some msc => flat_map (fun e => map (fun l => (fst mi, e, l)) (labels_of (snd mi) e)) (module_candidates msc (snd mi))
                                   | None => []
                                   end
                       | None => []
